@@ -251,8 +251,8 @@ def setup_world(s, cfg=None):
     return cfg
 
 
-def gen_world_case(rng, nsteps=None, allow_reload=True, allow_restart=True):
-    s = Script()
+def gen_world_case(rng, nsteps=None, allow_reload=True, allow_restart=True, dump_around=False, log=True):
+    s = Script(log=log)
     cfg = setup_world(s, base_cfg(deb=rng.choice([0, 1, 2, 3])))
     s.start()
     if rng.random() < 0.3:
@@ -306,7 +306,11 @@ def gen_world_case(rng, nsteps=None, allow_reload=True, allow_restart=True):
         elif r < 0.6:
             s.tick(rng.choice([0, 1, 1, 2, 3, 5]))
         elif r < 0.8:
+            if dump_around:
+                s.dump()
             s.timeout()
+            if dump_around:
+                s.dump()
         elif r < 0.84:
             if exists.get(f) == "file":
                 s.rm(f)
